@@ -93,6 +93,19 @@ Theorem C07_no_orphans : forall h kv,
   In kv (c_cmdmap (fst (run h))) -> find_sess (snd kv) (c_sessions (fst (run h))) <> None.
 Proof. exact no_orphans_run. Qed.
 Print Assumptions C07_no_orphans.
+(* storeClientSession and records that are not client-side ones (imported claim / inherited
+   sessions, or the server half of the same process sharing the cache).  In the histories
+   of C07_refines every record is a client-side one, so it always stores.  When the cache
+   holds, live under the announced id, a record that is NOT client-side and carries a
+   DIFFERENT key, it is an unrelated session: nothing is stored and no command is filed --
+   the cache is unchanged, whatever the server announced. *)
+Theorem C07_unrelated_record_untouched : forall c now tag addr fo ex,
+  lookup c now (f_sid fo) = Some ex -> is_client_side ex = false ->
+  same_key (e_key ex) (f_key fo) = false ->
+  store_client_session c now tag addr fo = c.
+Proof. intros c now tag addr fo ex L C K. unfold store_client_session. rewrite L, C, K. reflexivity. Qed.
+Print Assumptions C07_unrelated_record_untouched.
+
 (* ConnectAndAuthenticateWithConfig: after such a failure the retry is a full handshake *)
 Theorem C07_retry_is_full : forall c now t a cm p1 p2 e,
   cache_ok c -> a <> [] ->
